@@ -278,6 +278,12 @@ func runC10(r *fw.Run) {
 			r.Violation("C10 shutdown-returned-error", fmt.Sprintf("serving call returned %v after Shutdown", err2), cf.tr)
 		}
 	}
+	// one long-lived connection carrying a large total volume in both directions
+	r.Journal(0, map[string]string{"what": "volume on one connection"})
+	c10Volume(r, "unix", 1<<20, r.Pick(40, 4200))
+	c10Volume(r, "tcp", 256<<10, r.Pick(100, 2000))
+	c10Volume(r, "unix", 100, r.Pick(20000, 400000))
+	r.Done(0)
 	// ... or to time out: a service with an idle timeout, hostile clients, then silence
 	g, err := newRig(r, RigOpt{Transport: "unix", Ifaces: c01Ifaces, Timeout: 300 * time.Millisecond})
 	if err != nil {
@@ -317,7 +323,7 @@ func replayC10(r *fw.Run, raw json.RawMessage) { replayRound(r, raw, "C10") }
 func init() {
 	fw.Register(&fw.Engine{
 		ID: "C10", Level: "fault_enumeration",
-		Rule: "streams = valid call sequences (C01 generator), frame-level mutants (bit flips, deleted/inserted bytes, deleted and inserted NULs, structural bytes, wrong-shape JSON spliced in), wrong-shape frames (arrays, numbers, strings, booleans, null, objects with non-string method or non-boolean flags, case-variant and duplicate keys, trailing garbage, BOM, invalid UTF-8), shuffled and duplicated frames, random bytes, empty frames, a valid prefix followed by a tail without NUL. A case = (stream, abort offset k, abort style): EVERY k in 0..len(stream), once as 'write S[:k], half-close, read to EOF' (exact oracle: replies and handler log equal the sequential model applied to the complete frames of S[:k]; an invalid or wrong-shape frame ends the connection without reply or dispatch; null is answered like a call without method; the incomplete tail is never dispatched) and once as 'write S[:k] and close at once' (prefix oracle: dispatches are a prefix of the model's, each at most once). Every round of 48 aborts shares the service with a well-behaved connection running its own C01 script under the exact oracle. Plus aborts during multi-MiB replies/requests and 8 MiB frames without NUL. After each configuration: active-connection counter back to 0, Shutdown makes the serving call return nil; finally a service with a 300 ms idle timeout must stop with ServiceTimeoutError after hostile clients have gone. non-trivial = stream longer than one byte; distinct by (stream hash, offset, style). Also: every wrong-shape frame at least once between two valid calls; complete well-formed calls of 65 000 .. 1 MiB (thorough 3 MiB) judged exactly; rounds with a client that stalls (neither reads nor closes) in the middle of a 4 MiB reply.",
+		Rule: "streams = valid call sequences (C01 generator), frame-level mutants (bit flips, deleted/inserted bytes, deleted and inserted NULs, structural bytes, wrong-shape JSON spliced in), wrong-shape frames (arrays, numbers, strings, booleans, null, objects with non-string method or non-boolean flags, case-variant and duplicate keys, trailing garbage, BOM, invalid UTF-8), shuffled and duplicated frames, random bytes, empty frames, a valid prefix followed by a tail without NUL. A case = (stream, abort offset k, abort style): EVERY k in 0..len(stream), once as 'write S[:k], half-close, read to EOF' (exact oracle: replies and handler log equal the sequential model applied to the complete frames of S[:k]; an invalid or wrong-shape frame ends the connection without reply or dispatch; null is answered like a call without method; the incomplete tail is never dispatched) and once as 'write S[:k] and close at once' (prefix oracle: dispatches are a prefix of the model's, each at most once). Every round of 48 aborts shares the service with a well-behaved connection running its own C01 script under the exact oracle. Plus aborts during multi-MiB replies/requests and 8 MiB frames without NUL. After each configuration: active-connection counter back to 0, Shutdown makes the serving call return nil; finally a service with a 300 ms idle timeout must stop with ServiceTimeoutError after hostile clients have gone. non-trivial = stream longer than one byte; distinct by (stream hash, offset, style). Also: every wrong-shape frame at least once between two valid calls; complete well-formed calls of 65 000 .. 1 MiB (thorough 3 MiB) judged exactly; rounds with a client that stalls (neither reads nor closes) in the middle of a 4 MiB reply; long-lived connections: 40 x 1 MiB calls and 40 x 1 MiB replies (thorough 4200 each: beyond 2^32 bytes per direction), 100 x 256 KiB over TCP, 20 000 (thorough 400 000) small calls, each answered exactly, then GetInfo.",
 		Assumptions: []string{"frames with case-variant or duplicate known keys are judged for crash/dispatch-order/probe only (their meaning depends on decoder details the statement does not fix)", "unix-domain transports (filesystem and abstract)"},
 		Run:         runC10, Replay: replayC10, CrashIsViolation: true, MinEvals: 1000,
 		QuickTimeout: 15 * time.Minute, ThoroughTimeout: 60 * time.Minute,
